@@ -18,6 +18,7 @@ import signal
 import subprocess
 import sys
 import tempfile
+import threading
 import time
 
 VERIF = os.path.dirname(os.path.dirname(os.path.abspath(__file__)))
@@ -91,6 +92,8 @@ class Run:
         self.rule = ""
         self.exhaustive = False
         self._harness_bin = {}
+        self._lock = threading.Lock()
+        self._tlc_n = 0
 
     # ------------------------------------------------------------------ scratch
     def cleanup(self):
@@ -107,13 +110,16 @@ class Run:
     # ------------------------------------------------------------------ TLC
     def tlc(self, module, cfg, mode="bfs", workers=1, simulate=None, depth=None, timeout=900,
             coverage=False, extra_args=(), allow_violation=False, jvm=(), collect_json=True, dfid=None,
-            extra_modules=None):
+            extra_modules=None, seed=None):
         """Run TLC on spec/<module>.tla with the cfg text/file. Returns TLCResult.
 
         mode bfs: exhaustive; must end with 0 states left on queue.
         mode simulate: -simulate num=<simulate> -depth <depth> -seed <seed>.
         """
-        wd = self.mkdir("tlc%d" % len(self.tlc_runs))
+        with self._lock:
+            self._tlc_n += 1
+            wd = self.mkdir("tlc%d" % self._tlc_n)
+        seed = self.seed if seed is None else seed
         for fn in os.listdir(SPEC):
             if fn.endswith(".tla"):
                 shutil.copy(os.path.join(SPEC, fn), wd)
@@ -133,9 +139,9 @@ class Run:
         cmd += ["-cp", TLC_JAR, "tlc2.TLC", "-workers", str(workers), "-metadir", os.path.join(wd, "md"),
                 "-config", cfgpath]
         if mode == "simulate":
-            cmd += ["-simulate", "num=%d" % simulate, "-depth", str(depth), "-seed", str(self.seed)]
+            cmd += ["-simulate", "num=%d" % simulate, "-depth", str(depth), "-seed", str(seed)]
         else:
-            cmd += ["-seed", str(self.seed)]
+            cmd += ["-seed", str(seed)]
             if dfid:
                 cmd += ["-dfid", str(dfid)]
         if coverage:
@@ -186,10 +192,11 @@ class Run:
                 m = re.match(r"^<(\w+) line .*>: (\d+):(\d+)$", line.strip())
                 if m and int(m.group(3)) == 0 and m.group(1) not in ("Init",):
                     res.coverage_zero.append(m.group(1))
-        self.tlc_runs.append({"module": module, "mode": mode, "generated": res.generated,
-                              "distinct": res.distinct, "wall_s": round(res.wall, 2), "ok": res.ok})
-        self.states += res.distinct
-        self.transitions += res.generated
+        with self._lock:
+            self.tlc_runs.append({"module": module, "mode": mode, "generated": res.generated,
+                                  "distinct": res.distinct, "wall_s": round(res.wall, 2), "ok": res.ok})
+            self.states += res.distinct
+            self.transitions += res.generated
         if not res.ok and not allow_violation:
             tail = "\n".join(out.splitlines()[-40:])
             # keep JSON noise out of the diagnostic
@@ -197,6 +204,23 @@ class Run:
             die_tooling("TLC failed on %s (%s):\n%s" % (module, mode, tail))
         shutil.rmtree(os.path.join(wd, "md"), ignore_errors=True)
         return res
+
+    def tlc_simulate_many(self, module, cfg, total, depth, procs=8, timeout=2400, extra_modules=None):
+        """total simulated behaviours from `procs` TLC processes run side by side, each single-worker with its own
+        seed derived from the run's seed (TLC's simulation workers share one random sequence, so -workers does not help);
+        returns the decoded JSON lines in a deterministic order."""
+        from concurrent.futures import ThreadPoolExecutor
+        procs = max(1, min(procs, total))
+        per = (total + procs - 1) // procs
+        def one(k):
+            return self.tlc(module, cfg, mode="simulate", simulate=per, depth=depth, workers=1, timeout=timeout,
+                            extra_modules=extra_modules, seed=self.seed * 1000 + k).json
+        with ThreadPoolExecutor(max_workers=procs) as ex:
+            parts = list(ex.map(one, range(procs)))
+        out = []
+        for p in parts:
+            out += p
+        return out
 
     # ------------------------------------------------------------------ harness
     def build_harness(self, race=False):
